@@ -20,16 +20,21 @@ def run():
     env = {"OMPI_MCA_btl": "self"}
     runs = [([chk.seed * 1000 + i, nhist, 1 if i % 3 else 0, "--pika:threads=%d" % [4, 2, 3, 1][i % 4]], env)
             for i in range(nruns)]
-    # the same with a dedicated polling pool (another decoding of the completion-mode flags)
-    runs += [([chk.seed * 1000 + 400 + i, nhist, 1 if i % 2 else 0, "--pika:threads=%d" % [4, 3][i % 2],
-               "--pika:mpi-enable-pool"], env) for i in range(12 if chk.thorough() else 6)]
+    # the same with a dedicated polling pool (another decoding of the completion-mode flags; on one rank pika
+    # would not create the pool for --pika:mpi-enable-pool, so the harness forces it like pika's own test)
+    runs += [([chk.seed * 1000 + 400 + i, nhist, 1 if i % 2 else 0, "--pika:threads=%d" % [4, 3, 6][i % 3],
+               "--verif-mpi-pool"], env) for i in range(24 if chk.thorough() else 8)]
     hist = vlib.collect_histories(chk, binary, runs, "c20", timeout=900, jobs=6)
     modes = set()
+    pooled = set()
     for h, o in hist:
         if h and h[0].get("e") == "init":
             modes.add(h[0].get("mode"))
+            if h[0].get("pool") == 1:
+                pooled.add(h[0].get("mode"))
         chk.add_case((h[0] if h else {}), nontrivial=bool(h) and h[0].get("n", 0) > 1)
     chk.cov["completion_modes_exercised"] = sorted(m for m in modes if m is not None)
+    chk.cov["completion_modes_exercised_with_dedicated_pool"] = sorted(m for m in pooled if m is not None)
     for h, o in hist[:1]:
         chk.sample(h[:16])
     vlib.check_histories(chk, "MpiTrace", "MpiTrace.cfg", hist, "c20", batch=60)
@@ -38,6 +43,7 @@ def run():
                        "transform_mpi(MPI_Irecv) from their own tasks with polling enabled for exactly the history, "
                        "messages sent later one at a time (in order, newest first or shuffled), optional pika::wait() "
                        "from another thread while everything is in flight; each continuation checks its message had been "
-                       "sent and the whole payload is visible; validated by TLC against MpiAbs; distinct = (mode, N, len)")
+                       "sent and the whole payload is visible; a part of the runs has a dedicated single-worker polling pool; "
+                       "validated by TLC against MpiAbs; distinct = (mode, N, len)")
     chk.assumptions += ["one MPI implementation (OpenMPI 4.1) and one rank", "sequential consistency in the model"]
     return chk.finish()
